@@ -28,7 +28,7 @@ def gen():
     if not re.search(r'writer\.write_all\(b"EOS\\n"\)', o):
         raise F.FactError("Simple output no longer ends a sentence with EOS\\n")
     wb = F.fn_body(o, "write", "output.rs")
-    if not re.search(r'if\s+morphemes\.len\(\)\s*==\s*0\s*\{\s*writer\.write_all\(b"\\n"\)', wb):
+    if not re.search(r'if\s+(?:morphemes\.len\(\)\s*==\s*0|morphemes\.is_empty\(\))\s*\{\s*writer\.write_all\(b"\\n"\)', wb):
         raise F.FactError("Wakachi::write: empty-list case not recognised")
     out.append(columns(o))
     return "".join(out)
